@@ -253,6 +253,8 @@ def run(ctx):
     disabling a part that was never enabled.  So either the config arm of each command returns a constant 0 after calling the
     enable/disable function, or (if it forwards that function's result) no enable/disable function returns the status of a
     git command."""
+    ctx.rule('R18.8', 'name binding: every global name a function refers to is bound at module level or builtin, and every local is assigned on every path before it is read', floor=4)
+    ctx.rule('R18.7', 'every exactly resolved call binds against its callee\'s signature (no missing/unknown/surplus argument on any arm)', floor=3)
     ctx.rule('R18.6', 'a config subcommand does not turn "already absent" into a non-zero status (which would stop the config-git chain before the other drivers/tools are handled)', floor=4)
     _run_base(ctx)
     repo = ctx.repo
@@ -292,3 +294,7 @@ def run(ctx):
                  '%s() returns %s, and main() forwards it as exit status: `git config --remove-section/--unset` on something already absent exits non-zero, '
                  'so `nbdime config-git --disable` stops after this command and leaves the other drivers/tools enabled' % (
                      leaks[0][0], repo.norm(leaks[0][1].value)[:70]), leaks[0][1] if leaks else forwards[0])
+    from ..signatures import call_compat
+    call_compat(ctx, 'R18.7', ['nbdime.vcs.git.', 'nbdime.__main__'], 'the config command aborts half-way, leaving some drivers configured and others not')
+    from ..names import name_binding
+    name_binding(ctx, 'R18.8', ['nbdime.vcs.git.', 'nbdime.__main__'])
